@@ -54,6 +54,10 @@ def cases(tier, seed):
                     "seed": [seed, "one", i], "cost": 3})
     kinds = ["sphere", "layered", "spheres1", "spheres_close", "spheres_far", "spheres_boundary", "spheres_layered", "spheroid", "cylinder",
              "ellipsoid", "capsule", "janus", "csg", "scatterers", "non_scatterer", "spheres_boundary", "spheres_boundary", "spheres_exact"]
+    # more spheres than the multi-sphere solver is built for (20): a clear refusal, never numbers and never a dead interpreter (F133);
+    # 20 weak, well separated spheres are still computed and look like the sum of their single-sphere fields
+    for i, nsp in enumerate([20, 21, 24, 27] if tier == "quick" else [19, 20, 21, 22, 24, 25, 26, 30, 40]):
+        out.append({"id": "many-%d" % nsp, "kind": "many", "nsph": nsp, "meth": i % 2, "seed": [seed, "many", nsp], "cost": 12, "proc": "many-%d" % nsp})
     nr = len(kinds) * (2 if tier == "quick" else 30)
     for i in range(nr):
         out.append({"id": "rule-%d" % i, "kind": "rule", "what": kinds[i % len(kinds)], "offset": [-1e-7, 1e-7, -1e-3, 1e-3, -0.3, 0.5][(i // len(kinds)) % 6],      # (the rule is evaluated with a relative tolerance of 1e-9 since the rounding repair)
@@ -80,6 +84,25 @@ def _ms(case):
     if case.get("tight"):
         kw.update(TIGHT)
     return Multisphere(**kw)
+
+
+def _run_many(case):
+    import holopy as hp
+    from holopy.scattering import Sphere, Spheres, Mie, calc_field
+    from holopy.scattering.errors import InvalidScatterer, MultisphereFailure
+    n = case["nsph"]
+    sph = [Sphere(n=1.34, r=0.15, center=(0.6 * (i % 5), 0.6 * ((i // 5) % 5), 20 + 0.6 * (i // 25))) for i in range(n)]
+    det = hp.detector_grid(4, 1.0)
+    flags, resid = {}, {}
+    try:
+        a = calc_field(det, Spheres(sph), 1.33, 0.66, (1, 0), theory=_ms(case)).values
+        b = calc_field(det, Spheres(sph), 1.33, 0.66, (1, 0), theory=Mie()).values
+        # index 1.34 in 1.33: multiple scattering is a tiny correction to the sum of the single-sphere fields
+        resid["many_weak_spheres_vs_superposition"] = relmax(a, b)
+        flags["more_than_20_spheres_refused_or_right"] = True
+    except (InvalidScatterer, MultisphereFailure):
+        flags["more_than_20_spheres_refused_or_right"] = bool(n > 20)
+    return {"resid": resid, "flags": flags, "fmax": 1.0, "n": n}
 
 
 def _run_perm(case):
@@ -299,6 +322,8 @@ def _tol(k, obs=None):
         return 1e-4
     if k == "rot_tight":
         return 3e-6
+    if k == "many_weak_spheres_vs_superposition":
+        return 5e-2
     if k == "rot_g":
         return 3e-5
     if k in ("rot_xsec", "real_index_cluster_absorbs"):
